@@ -241,6 +241,23 @@ mksection .text
                            tmp, tmp2, k1, k2, k3, k4, k5, k6, \
                            %%GEN
 
+%ifdef SAFE_DATA
+        ;; empty lanes were initialized with a copy of a valid job
+        ;; - clear their keystream, it is never used nor cleared later
+        vpxorq          ymm0, ymm0
+        xor             DWORD(tmp), DWORD(tmp)
+%%clear_null_lane_ks:
+        bt              DWORD(init_lanes), DWORD(tmp)
+        jc              %%skip_clear_null_lane_ks
+        mov             DWORD(tmp2), DWORD(tmp)
+        shl             DWORD(tmp2), 5 ;; ks stored at 32 byte offsets
+        vmovdqa32       [state + _snow3g_ks + tmp2], ymm0
+%%skip_clear_null_lane_ks:
+        inc             DWORD(tmp)
+        cmp             DWORD(tmp), 16
+        jb              %%clear_null_lane_ks
+%endif
+
         ;; update init_done for valid initialized lanes
         mov     [state + _snow3g_init_done], WORD(init_lanes)
         bsf     DWORD(idx), DWORD(init_lanes)
